@@ -10,6 +10,7 @@ fn main() {
     match ctx.prop.as_str() {
         "C05" => checks::c05::run(&ctx),
         "C14" => checks::c14::run(&ctx),
+        "C01" => checks::c01::run(&ctx),
         "C20" => checks::c20::run(&ctx),
         "C04" => checks::c04::run(&ctx),
         "C09" => checks::c09::run(&ctx),
